@@ -1563,6 +1563,12 @@ class Cell(Bucket):
                 # placement is no longer valid.
                 servers[app.server].remove(app.name)
                 app.release_identity()
+            elif (app.server and
+                  not servers[app.server].traits.has(app.traits)):
+                # The allocation of the app now requires traits that the
+                # server does not offer, placement is no longer valid.
+                servers[app.server].remove(app.name)
+                app.release_identity()
 
     def _record_rank_and_util(self, queue):
         """Set final rank and utilization for all apps in the queue.
